@@ -408,6 +408,9 @@ func (w *c39World) checkAll(when string) {
 	}
 	w.compare(w.S, hsB, w.ref[hsB], "source-unrelated")
 	w.compare(w.T, hsC, w.ref[hsC], "target-unrelated")
+	// a delta for A must not leak the other hash slots' parts of a multi-slot command
+	w.compare(w.T, hsB, emptyLogical, "target-foreign")
+	w.compare(w.S, hsC, emptyLogical, "source-foreign")
 	if w.phase < 4 {
 		// until the switch S holds the authoritative copy (after the fence it is frozen,
 		// and so is the reference because nobody else accepts writes for A yet)
